@@ -87,6 +87,7 @@ class Engine:
         self.touched = {}; self.cov = set(); self.const_overrides = {}; self.max_orders = 720; self.notes = set()
         from . import models, models2, models3, models4
         models.register(self); models2.register2(self); models3.register3(self); models4.register4(self); models4.register_path(self)
+        from . import models5; models5.register5(self)
 
     # ---------------- forking
     def choose(self, n):
@@ -407,7 +408,7 @@ class Engine:
         if m:
             mm = re.fullmatch(r'(.*) as (.*) \((\w+)(?:\(.*\))?\)', s)
             if mm and not s.startswith('const "'):
-                v = self.operand(fr, mm.group(1)); return self.cast(v, mm.group(2), mm.group(3))
+                v = self.operand(fr, mm.group(1)); return self.cast(v, mm.group(2), mm.group(3), self.ty_of(fn, mm.group(1)))
             return self.operand(fr, s)
         if s.startswith('&mut '): return self.mkref(*self.place(fr, s[5:]))
         if s.startswith('&raw '):
@@ -539,7 +540,22 @@ class Engine:
             if d < 0: return False
         return d == 0
 
-    def cast(self, v, ty, kind):
+    INTW = {'u8': 8, 'u16': 16, 'u32': 32, 'u64': 64, 'usize': 64, 'i8': 8, 'i16': 16, 'i32': 32, 'i64': 64, 'isize': 64, 'u128': 128, 'i128': 128, 'char': 32, 'bool': 8}
+    def cast(self, v, ty, kind, src_ty=None):
+        if kind == 'IntToInt' and ty in self.INTW:
+            bits = self.INTW[ty]
+            if isinstance(v, bool): return int(v)
+            if isinstance(v, Enum): v = self.discr(v)
+            if isinstance(v, int):
+                v &= (1 << bits) - 1
+                if ty.startswith('i') and v >= 1 << (bits - 1): v -= 1 << bits
+                return v
+            if z3.is_bool(v): return z3.If(v, z3.BitVecVal(1, bits), z3.BitVecVal(0, bits))
+            if z3.is_bv(v):
+                sw = v.size()
+                if bits == sw: return v
+                if bits < sw: return z3.Extract(bits - 1, 0, v)
+                return z3.SignExt(bits - sw, v) if (src_ty or '').startswith('i') else z3.ZeroExt(bits - sw, v)
         if kind == 'PointerCoercion':
             if isinstance(v, Ref):
                 t = v.get()
@@ -672,7 +688,8 @@ class Engine:
                     val, dest = arm.split(': bb')
                     if val == 'otherwise': tg = int(dest); break
                     if isinstance(v, (bool, int)):
-                        if int(v) == int(val): tg = int(dest); break
+                        iv = int(v); jv = int(val)
+                        if iv == jv or (iv < 0 and jv in (iv + 256, iv + 65536, iv + (1 << 32), iv + (1 << 64), iv + (1 << 128))): tg = int(dest); break      # negative discriminants are printed as unsigned bit patterns
                     else:
                         cond = (v if int(val) else z3.Not(v)) if z3.is_bool(v) else (v == int(val))
                         if self.branch(cond): tg = int(dest); break
@@ -734,7 +751,7 @@ class Engine:
         if key in self._res_cache: return self._res_cache[key]
         r = self._resolve(c, args)
         # runtime-dispatched (generic param) results are not cached
-        if not re.match(r'<([A-Z]\w{0,2}|impl .*?|dyn .*?|Box<dyn .*?) as ', c): self._res_cache[key] = r
+        if not re.match(r'<([A-Z]\w{0,2}|Self|impl .*?|dyn .*?|Box<dyn .*?) as ', c): self._res_cache[key] = r
         return r
 
     def _resolve(self, c, args):
@@ -766,7 +783,7 @@ class Engine:
             xs = type_key(x)
             if re.fullmatch(r'[A-Z]\w{0,2}', xs) and xs in self.env_stack[-1] and not re.fullmatch(r'[A-Z]\w{0,2}', type_key(self.env_stack[-1][xs])):
                 return self._find_impl(meth, trait, type_key(self.env_stack[-1][xs]), len(args))
-            if (re.fullmatch(r'[A-Z]\w{0,2}', xs) or xs.startswith('impl ')) and args:           # generic param / `impl Trait` argument: dispatch on runtime type
+            if (re.fullmatch(r'[A-Z]\w{0,2}|Self', xs) or xs.startswith('impl ')) and args:           # generic param / `impl Trait` argument: dispatch on runtime type
                 v = deref(args[0]); xs = getattr(v, 'ty', None)
                 if xs is None: return None
                 if isinstance(args[0], Ref) and isinstance(args[0].get(), Ref):              # &&T receiver (blanket `impl Trait for &T`): same method on T
@@ -777,6 +794,10 @@ class Engine:
             is_std = xs.startswith(('std::', 'core::', 'alloc::')) or xs in ('str', 'String', 'usize', 'u8', 'u32', 'u64', 'i32', 'i64', 'bool', 'char') or xs.startswith('[')
             if is_std and not targ: return None                                  # std type, trait without type argument: std's own impl (a model)
             f = self._find_impl(meth, trait, xs, len(args))
+            if f is None and not is_std:
+                # provided (default) method of a crate trait: printed as `module::Trait::method`
+                d = [g for g in self.ix.by_simple.get(meth, []) if (g.name == trait + '::' + meth or g.name.endswith('::' + trait + '::' + meth)) and '<impl at' not in g.name and len(g.args) == len(args)]
+                if len(d) == 1: return d[0]
             if f is not None and targ and len(f.args) >= 2 and is_std:
                 if type_key(f.args[1]) != type_key(split_top(targ.group(1))[0]): return None
             return f
